@@ -38,6 +38,34 @@ struct TrainT {
     pkts: Vec<Vec<u8>>,
 }
 
+/// a fragment id that maps to the same memory slot as `id` (congruent modulo `slots` as plain integers,
+/// no 8-bit wrap-around) and is not one of `used`
+fn alias_id(id: u8, slots: usize, used: &[u8], pick: usize) -> Option<u8> {
+    let mut c: Vec<u8> = Vec::new();
+    let mut k = 1usize;
+    loop {
+        let up = id as usize + k * slots;
+        let down = (id as usize).checked_sub(k * slots);
+        if up > 255 && down.is_none() {
+            break;
+        }
+        if up <= 255 && !used.contains(&(up as u8)) {
+            c.push(up as u8);
+        }
+        if let Some(d) = down {
+            if !used.contains(&(d as u8)) {
+                c.push(d as u8);
+            }
+        }
+        k += 1;
+    }
+    if c.is_empty() {
+        None
+    } else {
+        Some(c[pick % c.len()])
+    }
+}
+
 fn outcome(r: &DecRes) -> String {
     match r {
         Ok(Ok((DecapStatus::CompletedPkt(b, m), n))) => format!("C({},{:#06x},{},{:016x},{})", m.pdu_len(), m.protocol_type(), label_str(&m.label()), fnv(&b[..m.pdu_len().min(b.len())]), n),
@@ -209,7 +237,10 @@ impl Property for Prop {
                 // stray candidates
                 let used: Vec<u8> = trains.iter().map(|t| t.id).collect();
                 let empty_slot_id = (0..=255u8).find(|i| !used.iter().any(|u| (*u as usize) % slots == (*i as usize) % slots));
-                let alias = trains[0].id.wrapping_add(slots as u8);
+                let alias = match alias_id(trains[0].id, slots, &used, part as usize) {
+                    Some(a) => a,
+                    None => return,
+                };
                 let mut strays: Vec<(Vec<u8>, &str)> = Vec::new();
                 if gen == "strays" {
                     if let Some(e) = empty_slot_id {
@@ -319,7 +350,13 @@ impl Property for Prop {
                 }
                 let stray_pkt: Vec<u8>;
                 let stray = if rng.chance(2, 3) {
-                    let alias = trains[rng.below(4)].id.wrapping_add((slots * (1 + rng.below(3))) as u8);
+                    let used: Vec<u8> = trains.iter().map(|t| t.id).collect();
+                    let ti = rng.below(4);
+                    let pick = rng.below(16);
+                    let alias = match alias_id(trains[ti].id, slots, &used, pick) {
+                        Some(a) => a,
+                        None => return,
+                    };
                     stray_pkt = if rng.chance(1, 2) { mk_inter(alias, b"zz") } else { mk_end(alias, b"zz", rng.next() as u32) };
                     Some((rng.below(21), &stray_pkt, "sampled-aliasing"))
                 } else {
